@@ -84,3 +84,63 @@ def write_catalogue():
             continue
         names |= set(l.split())
     return names
+
+
+def dispatch_catalogue():
+    rows = []
+    for l in open(os.path.join(VERIF, 'spec', 'dispatch_catalogue.txt')):
+        if l.startswith('#') or not l.strip():
+            continue
+        cmd, handler, dbf = l.split()
+        rows.append((cmd, handler, dbf))
+    return rows
+
+
+def run_dispatch(tcfg, pid):
+    """Exhaustive check of the command dispatch of Server::process_normal_command against spec/dispatch_catalogue.txt: for every
+    catalogued command, the arm that matches its name calls the catalogued handler first, and — for key-space commands — passes
+    the dispatcher's `db` argument (nothing else) as the database. The arms are read from the AST index of the real file on every
+    run. Finite domain, enumerated completely."""
+    t0 = time.time()
+    r = {'unit': tcfg['name'], 'status': None, 'failures': [], 'cases': 0, 'samples': []}
+    try:
+        idx = gen.index('src/network/server.rs')
+        fn = gen.find_fn(idx, 'src/network/server.rs', 'Server::process_normal_command')
+        src = idx['src']
+        big = max(fn.get('matches', []), key=lambda m: len(m['arms']))
+        if len(big['arms']) < 60:
+            raise gen.GenError('lost-anchor: dispatch match of process_normal_command not found')
+        # the dispatcher's own parameters
+        params = [gen.normtok(src[s:e].decode()) for (s, e) in fn['inputs']]
+        if 'db:usize' not in params:
+            raise gen.GenError('lost-anchor: process_normal_command has no `db: usize` parameter')
+    except gen.GenError as e:
+        r['status'] = 'undecided'
+        r['reason'] = str(e)
+        return r
+    arms = {}
+    for a in big['arms']:
+        for m in re.finditer(r'"([A-Z]+)"', a['pat']):
+            arms[m.group(1)] = a
+    r['repo'] = f"src/network/server.rs:{gen.line_of(idx, big['span'][0])}-{gen.line_of(idx, big['span'][1])}"
+    r['sha256'] = hashlib.sha256(src[big['span'][0]:big['span'][1]]).hexdigest()
+    for cmd, handler, dbf in dispatch_catalogue():
+        r['cases'] += 2 if dbf == 'db' else 1
+        a = arms.get(cmd)
+        if a is None:
+            r['failures'].append({'case': cmd, 'what': f'command {cmd} is no longer dispatched (no arm matches its name)', 'inputs': {'command': cmd}})
+            continue
+        body = re.sub(r'\s+', ' ', src[a['body'][0]:a['body'][1]].decode())
+        m = re.search(r'(self\.|[\w:]+::|)(handle_\w+)\(([^()]*(?:\([^()]*\)[^()]*)*)\)', body)
+        if not m:
+            r['failures'].append({'case': cmd, 'what': f'arm of {cmd} calls no handler', 'inputs': {'command': cmd}})
+            continue
+        callee, args = m.group(2), [x.strip() for x in m.group(3).split(',')]
+        if callee != handler:
+            r['failures'].append({'case': cmd + ':handler', 'what': f'{cmd} is dispatched to {callee}, expected {handler}', 'inputs': {'command': cmd}})
+        if dbf == 'db' and args.count('db') != 1:
+            r['failures'].append({'case': cmd + ':db', 'what': f'{cmd}: the handler call `{callee}({m.group(3).strip()})` does not pass the dispatcher\'s `db` (the connection\'s database)', 'inputs': {'command': cmd}})
+    r['samples'] = [{'case': c, 'handler': h, 'db': d} for (c, h, d) in dispatch_catalogue()[:3]]
+    r['status'] = 'failed' if r['failures'] else 'verified'
+    r['wall_s'] = round(time.time() - t0, 2)
+    return r
